@@ -725,19 +725,20 @@ def qstep (q : QSys) : POp → QSys × List Nat
   | .discard x n => (q.set (!x) { (q.dir (!x)) with flushed := (q.dir (!x)).flushed.drop n }, [])
   | .readString x n => (q.set (!x) { (q.dir (!x)) with flushed := (q.dir (!x)).flushed.drop n }, (q.dir (!x)).flushed.take n)
   | .readInto x n => (q.set (!x) { (q.dir (!x)) with flushed := (q.dir (!x)).flushed.drop n }, (q.dir (!x)).flushed.take n)
+  | .readByte x => (q.set (!x) { (q.dir (!x)) with flushed := (q.dir (!x)).flushed.drop 1 }, (q.dir (!x)).flushed.take 1)
   | .release _ => (q, [])
   | .close x => ((q.set x { (q.dir x) with composed := [] }).set (!x) { (q.dir (!x)) with flushed := [] }, [])
-  | _ => (q, [])
 
-/-- the operations this refinement covers (ReadByte has its slot accounting in `pstep_inv` but no byte-level statement
-    here; Read is covered for the case that all requested bytes are buffered - in general it returns a non-empty prefix) -/
+/-- the operations this refinement covers: all of them (Read is covered for the case that all requested bytes are
+    buffered - in general it returns a non-empty prefix; ReadByte is covered conditionally: the theorem says what it returns
+    when it returns, the model's `none` for it is an index panic on an empty next slice, see `readByte_spec`) -/
 def Covered : POp → Prop
-  | .readByte _ => False
   | _ => True
 
 /-- what Stream.readMore guarantees before a reader call runs: the requested bytes are buffered -/
 def Guard (s : PSys) : POp → Prop
   | .readBytes x n | .peek x n | .discard x n | .readString x n | .readInto x n => 0 < n ∧ n ≤ (s.get x).recv.len
+  | .readByte x => 1 ≤ (s.get x).recv.len
   | _ => True
 
 def PQS (N : Nat) (s : PSys) (q : QSys) : Prop := PQ N s.m s.a s.b q.ab q.ba
@@ -866,7 +867,24 @@ theorem pq_step {s s' : PSys} {q : QSys} {op : POp} (h : PQS N s q) (hc : Covere
     simp only [drop_zero] at this
     rw [QSys.set_both_self] at this
     exact ⟨this, rfl⟩
-  | readByte x => exact absurd hc (by simp [Covered])
+  | readByte x =>
+    obtain ⟨hx, put1, _⟩ := h.side x
+    have hle' : 1 ≤ (content s.m (s.get x).recv.sl).length := by rw [← hx.yx.rlen]; exact hg
+    simp only [pstep] at e
+    cases e1 : (s.get x).recv.readByte s.m with
+    | none => rw [e1] at e; cases e
+    | some r =>
+      obtain ⟨m1, l1, b⟩ := r
+      rw [e1] at e
+      simp only [Option.some.injEq] at e
+      subst e
+      obtain ⟨e2, e3, e4, e5, _⟩ := readByte_spec s.m (s.get x).recv hx.yx.rwf hle' m1 l1 b e1
+      have a := readByte_acct s.m (s.get x).recv m1 l1 b hx.pi.shape hx.pi.x.recv e1
+      have := put1 _ _ _ _ (hx.recvStep a 1 e3 hle' e4 e5)
+      rw [QSys.set_self_other] at this
+      refine ⟨this, ?_⟩
+      simp only [pout, e1, qstep, e2]
+      rw [← hx.yx.fl, take_append_of_le_length hle']
   | readString x n =>
     obtain ⟨hx, put1, _⟩ := h.side x
     obtain ⟨hpos, hle⟩ := hg
